@@ -7,6 +7,8 @@ mod c02s;
 #[cfg(kani)]
 mod c04;
 #[cfg(kani)]
+mod c04p;
+#[cfg(kani)]
 mod c05;
 #[cfg(kani)]
 mod c09;
